@@ -210,34 +210,32 @@ fn varlink_type<'a>(input: &mut &'a [u8]) -> ModalResult<Type<'a>, InputError<&'
 /// Parse an interface name: reverse domain notation like org.example.test.
 fn interface_name<'a>(input: &mut &'a [u8]) -> ModalResult<&'a str, InputError<&'a [u8]>> {
     let start = *input;
-    let mut pos = 0;
+
+    // The rest of a segment: ([-]*[A-Za-z0-9])*. Returns the position after the last
+    // alphanumeric, so that a segment never ends with a dash.
+    fn segment_rest(input: &[u8], mut pos: usize) -> usize {
+        let mut end = pos;
+        while pos < input.len() && (input[pos].is_ascii_alphanumeric() || input[pos] == b'-') {
+            pos += 1;
+            if input[pos - 1] != b'-' {
+                end = pos;
+            }
+        }
+        end
+    }
 
     // First segment: [A-Za-z]([-]*[A-Za-z0-9])*
-    if pos >= input.len() || !input[pos].is_ascii_alphabetic() {
+    if input.is_empty() || !input[0].is_ascii_alphabetic() {
         return Err(ErrMode::Backtrack(ParserError::from_input(input)));
     }
-    pos += 1;
-
-    while pos < input.len() && (input[pos].is_ascii_alphanumeric() || input[pos] == b'-') {
-        pos += 1;
-    }
+    let mut pos = segment_rest(input, 1);
 
     let mut found_dot = false;
     // Subsequent segments: .[A-Za-z0-9]([-]*[A-Za-z0-9])*
-    while pos < input.len() && input[pos] == b'.' {
+    // A dot only belongs to the name if a segment follows it.
+    while pos + 1 < input.len() && input[pos] == b'.' && input[pos + 1].is_ascii_alphanumeric() {
         found_dot = true;
-        pos += 1; // skip dot
-
-        // Must have at least one alphanumeric after dot
-        if pos >= input.len() || !input[pos].is_ascii_alphanumeric() {
-            break;
-        }
-        pos += 1;
-
-        // Continue with alphanumeric and dashes
-        while pos < input.len() && (input[pos].is_ascii_alphanumeric() || input[pos] == b'-') {
-            pos += 1;
-        }
+        pos = segment_rest(input, pos + 2);
     }
 
     // Check for at least one dot
